@@ -388,8 +388,8 @@ pub fn def(ctx: &Ctx) -> PropertyDef {
         ),
         Section::random(
             "high-degree",
-            ctx.cases(25, 500),
-            move || star_spec(t.pick(16, 18)),
+            ctx.cases(16, 500),
+            move || star_spec(t.pick(14, 16)),
             check_star,
         ),
     ];
